@@ -6,6 +6,7 @@
  *  history : E-bfs full reachability of small bit / byte matrices under set / clear / toggle / write
  */
 #include "vh.h"
+#include <sys/mman.h>
 
 #include "varint.h"
 #include "varintDimension.h"
@@ -622,6 +623,129 @@ static void run_matrix_sequences(void) {
     vh_class("sequences/two-matrices-one-buffer", "%d shapes x %d shapes x {bit, u8, double} x {encoded in place, header copied in}", NS, NS);
 }
 
+/* ---------------------------------------------------------------- far cells
+ * Matrices whose cell index, bit offset or byte offset exceeds 2^31 / 2^32: lazily committed 40 GiB storage, only the
+ * header page and the window around the addressed cell may be touched (mincore page-access scan), the window must
+ * equal the model and the value must read back. */
+#define FAR_BYTES (((size_t)40 << 30) + (1 << 16))
+static void run_far_cells(void) {
+    if (!vh_section_begin("far-cells")) {
+        return;
+    }
+    uint8_t *map = mmap(NULL, FAR_BYTES, PROT_READ | PROT_WRITE, MAP_PRIVATE | MAP_ANONYMOUS | MAP_NORESERVE, -1, 0);
+    if (map == MAP_FAILED) {
+        vh_flag("far_cells_mapped", 0);
+        return;
+    }
+    vh_flag("far_cells_mapped", 1);
+    madvise(map, FAR_BYTES, MADV_NOHUGEPAGE);
+    unsigned char *vec = malloc(FAR_BYTES / 4096);
+    static const uint64_t SHAPES[4][2] = {{70000, 70000}, {3, (1ULL << 31) + 5}, {(1ULL << 32) + 3, 2}, {65537, 65536}};
+    static const int KINDS[6] = {K_BIT, K_U1, K_U2, K_U4, K_U8, K_DOUBLE};
+    for (int si = 0; si < 4; si++) {
+        uint64_t rows = SHAPES[si][0], cols = SHAPES[si][1];
+        __uint128_t all = (__uint128_t)rows * cols;
+        /* target linear indices */
+        uint64_t targets[16];
+        int nt = 0;
+        static const int EX[5] = {29, 30, 31, 32, 33};
+        for (int e = 0; e < 5; e++) {
+            for (int d = -1; d <= 1; d++) {
+                targets[nt++] = (1ULL << EX[e]) + (uint64_t)d;
+            }
+        }
+        targets[nt++] = (uint64_t)(all - 1);
+        for (int ki = 0; ki < 6; ki++) {
+            int kind = KINDS[ki], ew = kind_width(kind);
+            for (int ti = 0; ti < nt; ti++) {
+                if (!vh_case()) {
+                    continue;
+                }
+                uint64_t idx = targets[ti];
+                if ((__uint128_t)idx >= all) {
+                    continue;
+                }
+                uint64_t r = idx / cols, c = idx % cols;
+                int wr = ref_bytes_of(rows), wc = ref_bytes_of(cols);
+                size_t hl = (size_t)(wr + wc);
+                __uint128_t off128 = kind == K_BIT ? (__uint128_t)hl + idx / 8 : (__uint128_t)hl + (__uint128_t)idx * (unsigned)ew;
+                if (off128 + 64 >= FAR_BYTES) {
+                    continue;
+                }
+                size_t off = (size_t)off128;
+                size_t wlo = off >= 16 ? off - 16 : 0, whi = off + (kind == K_BIT ? 1 : (size_t)ew) + 16, wl = whi - wlo;
+                for (int bgi = 0; bgi < 2; bgi++) {
+                    uint8_t model[64];
+                    memset(map + wlo, bgi ? 0xff : 0x00, wl);
+                    int dim = (int)varintDimensionPairEncode(map, (size_t)rows, (size_t)cols);
+                    memcpy(model, map + wlo, wl);
+                    snprintf(desc, sizeof desc, "%" PRIu64 "x%" PRIu64 " %s matrix, cell (%" PRIu64 ",%" PRIu64 ") = linear index %" PRIu64 ", background %02x", rows, cols, KN[kind], r, c, idx, bgi ? 0xff : 0);
+                    const char *api = kind == K_BIT ? "dimension.EntrySetBit" : kind == K_DOUBLE ? "dimension.EntrySetDouble" : "dimension.EntrySetUnsigned";
+                    int ok = 1;
+                    if (SB_ENTER()) {
+                        if (kind == K_BIT) {
+                            varintDimensionPairEntrySetBit(map, (size_t)r, (size_t)c, !bgi, (varintDimensionPair)dim);
+                            if (bgi) {
+                                model[off - wlo] &= (uint8_t)~(1u << (idx % 8));
+                            } else {
+                                model[off - wlo] |= (uint8_t)(1u << (idx % 8));
+                            }
+                            ok = varintDimensionPairEntryGetBit(map, (size_t)r, (size_t)c, (varintDimensionPair)dim) == !bgi;
+                        } else if (kind == K_DOUBLE) {
+                            double d = 1234.5 + (double)ti;
+                            varintDimensionPairEntrySetDouble(map, (size_t)r, (size_t)c, d, (varintDimensionPair)dim);
+                            memcpy(model + (off - wlo), &d, 8);
+                            ok = varintDimensionPairEntryGetDouble(map, (size_t)r, (size_t)c, (varintDimensionPair)dim) == d;
+                        } else {
+                            uint64_t mask = ew == 8 ? UINT64_MAX : (1ULL << (8 * ew)) - 1, v = 0x8142241812244281ULL & mask;
+                            varintDimensionPairEntrySetUnsigned(map, (size_t)r, (size_t)c, v, (varintWidth)ew, (varintDimensionPair)dim);
+                            ref_le(model + (off - wlo), v, ew);
+                            ok = varintDimensionPairEntryGetUnsigned(map, (size_t)r, (size_t)c, (varintWidth)ew, (varintDimensionPair)dim) == v;
+                        }
+                        SB_LEAVE();
+                    } else {
+                        vh_fail(api, vh_fault_name(), "untagged", "%s: %s", desc, vh_fault_msg);
+                    }
+                    vh_count("calls", 2);
+                    vh_count("cases", 1);
+                    if (!ok) {
+                        vh_fail(api, "wrong_readback", "untagged", "%s", desc);
+                    }
+                    if (memcmp(map + wlo, model, wl)) {
+                        vh_fail(api, "other_cell_modified_or_cell_wrong", "untagged", "%s: the bytes at the cell's position (matrix byte %zu) differ from the model", desc, off);
+                    }
+                    if (mincore(map, FAR_BYTES, vec) == 0) {
+                        size_t plo = wlo / 4096, phi = (whi - 1) / 4096, npages = FAR_BYTES / 4096;
+                        for (size_t pg = 0; pg < npages; pg++) {
+                            if (pg + 8 <= npages && ((uintptr_t)(vec + pg) & 7) == 0) {
+                                uint64_t eight;
+                                memcpy(&eight, vec + pg, 8);
+                                if ((eight & 0x0101010101010101ULL) == 0) {
+                                    pg += 7;
+                                    continue;
+                                }
+                            }
+                            if (!(vec[pg] & 1)) {
+                                continue;
+                            }
+                            if (pg != 0 && (pg < plo || pg > phi)) {
+                                vh_fail(api, "other_cell_modified_or_cell_wrong", "untagged", "%s: cell lies at matrix byte %zu but the page at matrix byte %zu was accessed", desc, off, pg * 4096);
+                            }
+                            madvise(map + pg * 4096, 4096, MADV_DONTNEED);
+                        }
+                        vh_count("page_scans", 1);
+                    }
+                }
+                char ck[64];
+                snprintf(ck, sizeof ck, "far-cells/%s/index>=2^%d", KN[kind], 63 - __builtin_clzll(idx | 1));
+                vh_class(ck, "%" PRIu64 "x%" PRIu64 " cell (%" PRIu64 ",%" PRIu64 ")", rows, cols, r, c);
+            }
+        }
+    }
+    free(vec);
+    munmap(map, FAR_BYTES);
+}
+
 int main(int argc, char **argv) {
     vh_init(argc, argv);
     vh_sandbox_init();
@@ -631,6 +755,7 @@ int main(int argc, char **argv) {
     run_cells();
     run_histories();
     run_matrix_sequences();
+    run_far_cells();
     vh_write_out();
     return 0;
 }
